@@ -165,7 +165,7 @@ class Check(common.Check):
             if isinstance(node, ast.FunctionDef) and node.name == 'osc_rematch_pattern':
                 for sub in ast.walk(node):
                     if isinstance(sub, ast.Call) and isinstance(sub.func, ast.Attribute) and \
-                            getattr(sub.func.value, 'id', None) == 're' and sub.func.attr in ('match', 'fullmatch'):
+                            sub.func.attr in ('match', 'fullmatch'):      # re.fullmatch(p, a) or compiled.fullmatch(a)
                         call = sub.func.attr
                     if isinstance(sub, ast.ExceptHandler):
                         guarded = True
@@ -204,7 +204,7 @@ class Check(common.Check):
 
     # ---- generators --------------------------------------------------------------------------
     PATHS = ['/x', '/foo', '/foobar', '/foo/bar', '/a.b', '/a+b', '/m1', '/m2', '/x/1', '/x/12', '/(a)', '/a|b',
-             '/a$', '/^a', '/a\\b', '/ab', '/ac', '/abc', '/aXc']
+             '/a$', '/^a', '/a\\b', '/ab', '/ac', '/abc', '/aXc', '/a.c']
 
     def g_pattern_for(self, rng, path, depth=0):
         """an OSC pattern built from `path` (usually matching it)"""
@@ -759,6 +759,10 @@ class Check(common.Check):
             return f'n{v[1]}'
         if t == 'f':
             x = struct.unpack('>f', struct.pack('>I', v[1]))[0]
+            if x != x:
+                return 'nnan'
+            if x in (float('inf'), float('-inf')):
+                return 'n' + str(x)
             fr = Fraction(x)
             return f'n{fr.numerator}' if fr.denominator == 1 else f'n{fr.numerator}/{fr.denominator}'
         if t == 's':
@@ -817,7 +821,8 @@ class Check(common.Check):
                 addr = addr_b.decode('utf-8')
             except UnicodeDecodeError:
                 return None
-            t = Fraction(float.fromhex(now)) if tt is None or tt == 1 else Fraction(tt - off, 2 ** 32)
+            # float(osctime - offset) * 2**-32, as the library computes it (rounds above 2**53)
+            t = Fraction(float.fromhex(now)) if tt is None or tt == 1 else Fraction(float(tt - off)) / 2 ** 32
             want_pay = (cps(addr) + ';' + ' '.join(self.plain(v) for v in vals) + ';'
                         + (str(t.numerator) if t.denominator == 1 else f'{t.numerator}/{t.denominator}')
                         + ';' + f'{sender[0]}:{sender[1]}' + ';' + str(port))
